@@ -393,7 +393,8 @@ def scheduled_cases(draw):
         spec = ("random", draw(st.integers(0, 2 ** 32)), draw(st.sampled_from([0.7, 0.9, 0.97])))
     else:
         spec = ("preempt", draw(st.lists(st.tuples(st.integers(1, 300), st.integers(0, 3)), min_size=1, max_size=4)), draw(st.integers(0, 3)))
-    return {"requests": reqs, "pool": draw(st.integers(1, 3)), "min": draw(st.integers(0, 1)), "sched": spec, "lines": draw(st.booleans())}
+    return {"requests": reqs, "pool": draw(st.integers(1, 3)), "min": draw(st.integers(0, 1)), "sched": spec, "lines": draw(st.booleans()),
+            "staged": draw(st.booleans())}
 
 
 def request_body(kind, tok):
@@ -424,15 +425,17 @@ SCHED_WORKLOADS = [
 
 
 def sched_sweep_cases(tier):
-    for i in range(len(SCHED_WORKLOADS)):
+    # each request set twice: all connections queued at once, and "staged" (the next connection
+    # arrives while the worker of the previous one is going back to the queue)
+    for i in range(2 * len(SCHED_WORKLOADS)):
         yield {"workload": i, "occurrences": 1 if tier == "quick" else 2}
 
 
 def oracle_sched_sweep(case):
     from vlib import detsched as D
 
-    reqs, pool = SCHED_WORKLOADS[case["workload"]]
-    base = {"requests": reqs, "pool": pool, "min": 0, "lines": True}
+    reqs, pool = SCHED_WORKLOADS[case["workload"] % len(SCHED_WORKLOADS)]
+    base = {"requests": reqs, "pool": pool, "min": 0, "lines": True, "staged": case["workload"] >= len(SCHED_WORKLOADS)}
     infos = []
 
     def run_once(chooser):
@@ -474,8 +477,24 @@ def scheduled_run(case, chooser):
         pool.start()
         srv = S.PooledJSONRPCServer(("localhost", 0), requestHandler=Handler, logRequests=False, bind_and_activate=False, thread_pool=pool)
         log = []
-        srv.register_function(lambda t: (log.append(("echo", t)), t)[1], "echo")
-        srv.register_function(lambda t: log.append(("mark", t)), "mark")
+        served = {}
+
+        def signal(t):
+            ev = served.get(t[:2] if t[:1] == "t" else t)
+            for key, ev in served.items():
+                if t.startswith(key) and not ev.flag:
+                    ev.set()
+
+        def echo(t):
+            log.append(("echo", t))
+            signal(t)
+            return t
+
+        def mark(t):
+            log.append(("mark", t))
+            signal(t)
+        srv.register_function(echo, "echo")
+        srv.register_function(mark, "mark")
 
         def boom(t):
             raise ValueError(t)
@@ -487,7 +506,13 @@ def scheduled_run(case, chooser):
             body = text.encode("utf-8")
             a.sendall(b"POST / HTTP/1.0\r\nHost: x\r\nContent-Length: %d\r\n\r\n" % len(body) + body)
             pairs.append((a, b, kind, echoes, marks))
+            if case.get("staged") and kind in ("echo", "echo1", "notify", "batch"):
+                served["t%d" % i] = D.Event()
             srv.process_request(b, ("127.0.0.1", i))
+            if case.get("staged") and ("t%d" % i) in served:
+                # the accept loop goes on only after this request has reached its method:
+                # the worker is then on its way back to the queue while the next connection arrives
+                served["t%d" % i].wait()
         pool.join()
         pool.stop()
         out = []
@@ -562,7 +587,7 @@ SUBS = [
         budget={"quick": 240, "thorough": 4000}, shards={"quick": 8, "thorough": 16},
         time_cap={"quick": 100, "thorough": 1500}, shrink=False,
         what="lifecycle histories incl. close-without-serve, in-flight requests, bind failure"),
-    Sub("scheduled-sweep", oracle_sched_sweep, enumerate=sched_sweep_cases, shards={"quick": 6, "thorough": 6},
+    Sub("scheduled-sweep", oracle_sched_sweep, enumerate=sched_sweep_cases, shards={"quick": 12, "thorough": 12},
         time_cap={"quick": 100, "thorough": 1500},
         what="pooled server handlers: every single preemption at a distinct source line of 6 small request sets"),
     Sub("scheduled", oracle_scheduled, strategy=lambda tier: scheduled_cases(),
